@@ -1,7 +1,7 @@
 (* C03 - conditionals, loops and matches render what the Rust construct would.  Theorems only. *)
 From Coq Require Import Lia.
 From Ructe Require Import Nom NomFacts Utf8 Spacelike Expression TemplateExpr Template Emit Tables Io IoProofs Exec
-                          ParserProofs SpaceProofs TextProofs EmitProofs ExecProofs.
+                          ParserProofs SpaceProofs TextProofs EmitProofs ExecProofs RoundTrip.
 Local Open Scope list_scope.
 
 Section Parse.
@@ -22,6 +22,36 @@ Section Parse.
   Theorem nothing_swallowed_after_for : forall te i a r, good te -> for_branch E te i = Ok a r -> ends_with_brace i r.
   Proof. intros te i a r G H. exact (for_branch_ends E HE te i a r G H). Qed.
 End Parse.
+
+(* completeness: template_expression returns exactly the AST that the declarative grammar [PI]
+   (Proofs/RoundTrip.v) derives for a text -- @if with else / else-if chains, @for, @match with its
+   arms, calls with block arguments, nested to any depth d -- at every fuel above d.  The lexical
+   pieces of a derivation (layout, Rust fragments) are whatever spacelike / expression /
+   cond_expression / loop_expression / for_variable take at that point of the text *)
+Theorem template_grammar_complete : forall (E : nt -> parser bytes) (ln : nat), (forall x, good (E x)) ->
+  (forall d t i r, PI E ln d t i r -> forall m, d < m -> texpr_gram E ln m TE i = Ok t r) /\
+  (forall d l i r m, PIs E ln d l i (125%N :: r) -> d < m -> template_block (fun j => texpr_gram E ln m TE j) (123%N :: i) = Ok l r) /\
+  (forall d l i m, PIs E ln d l i [] -> d < m ->
+     many_till (context (b "Error in expression starting here:") (fun j => texpr_gram E ln m TE j)) end_of_file i = Ok (l, tt) []).
+Proof.
+  intros E ln HE. split; [exact (proj1 (grammar_complete E HE ln))|]. split.
+  - intros d l i r m H Hm. exact (block_complete E HE ln d l i r m H Hm).
+  - intros d l i m H Hm. exact (body_complete E HE ln d l i m H Hm).
+Qed.
+
+(* non-vacuity: a text with every construct has a derivation, found by evaluating the lexical side conditions *)
+Example a_derivation :
+  let E0 := expr_gram 12 in
+  PIs E0 3 6
+    [TText (b "<p>"); TIf (b "a") [TText (b "x"); TExpr (b "b")] (Some [TIf (b "c") [] None]);
+     TFor (b "v") (b "xs") [TExpr (b "v"); TText (b ",")];
+     TMatch (b "o") [(b "Some(k)", [TExpr (b "k")]); (b "None", [])];
+     TCall (b "wrap_html") [ARust (b "n"); ABody [TText (b "k")]; ABody []]; TComment; TText (b "@")]
+    (b "<p>@if a {x@b} else if c {}@for v in xs {@v,}@match o { Some(k) => {@k} None => {} }@:wrap_html(n, {k}, {})@* c *@@@") [].
+Proof.
+  intros E0.
+  match goal with |- PIs _ _ _ ?a ?s _ => concrete a; concrete s end. pi_items.
+Qed.
 
 (* the emitted code has the structure of the construct, with the fragments verbatim and the
    bodies emitted recursively; an else holding exactly one @if is flattened to `else if` *)
@@ -82,6 +112,8 @@ Proof. vm_compute. reflexivity. Qed.
 Redirect "assumptions/C03.block_ends_at_its_brace" Print Assumptions block_ends_at_its_brace.
 Redirect "assumptions/C03.nothing_swallowed_after_if" Print Assumptions nothing_swallowed_after_if.
 Redirect "assumptions/C03.nothing_swallowed_after_for" Print Assumptions nothing_swallowed_after_for.
+Redirect "assumptions/C03.template_grammar_complete" Print Assumptions template_grammar_complete.
+Redirect "assumptions/C03.a_derivation" Print Assumptions a_derivation.
 Redirect "assumptions/C03.emit_structure" Print Assumptions emit_structure.
 Redirect "assumptions/C03.render_control_flow" Print Assumptions render_control_flow.
 Redirect "assumptions/C03.exec_renders" Print Assumptions exec_renders.
